@@ -446,7 +446,7 @@ def c06(tier):
     cov.update(real)
     cov['traces_validated_against_impl'] = real['traces_validated_against_impl'] + cov['behaviours_replayed_on_real_code']
     # (c) two invocations at once inside RedoSys: every interleaving, outcomes compared
-    pairs_part('C06', tier, verdict, cov, te)
+    pairs_part('C06', tier, verdict, cov, te, only=None if tier == 'thorough' else ('pair_chain', 'pair_lockfail'))
     cov['note'] = ('(a) TLC: ScriptMutex / HoldThroughRecord / ScriptUnderLock on every interleaving of parallel process trees '
                    '(RedoSys); (b) 2-6 top-level commands started together on random DAGs (fresh and existing state dirs, '
                    'failing scripts, checksummed targets, log capture): every lock grant/release, decision, script begin/end, '
@@ -469,7 +469,7 @@ def c16(tier):
     cov['exhaustive'] = True
     # (c) two invocations at once inside RedoSys: exit statuses and every row and edge left behind must be those of one
     # interleaving the specification allows (nothing lost, no failure that the scripts do not explain)
-    pairs_part('C16', tier, verdict, cov, te)
+    pairs_part('C16', tier, verdict, cov, te, only=None if tier == 'thorough' else ('pair_stamp', 'pair_query'))
     cov['note'] = ('(a) TLC: RedoDb (SQLite WAL rules + the transaction scripts of the commands) for 2-4 concurrent builds and '
                    'queries, with and without an existing database: NoSpuriousFailure, NoLostState, RunIdsDistinct, NotStuck; '
                    'the pinned start-up (deferred transaction, exists/unlink/create) is kept as a mode and must yield the '
